@@ -543,6 +543,66 @@ func reentrant(kind int) (evals int, viols []vcommon.Violation, hung bool) {
 	}
 }
 
+// deepSiblings: deep but narrow - a parent d derivation steps below the root (d = 1..20, steps of
+// With, or With and WithGroup alternating), then two children derived from it; the first child,
+// the parent and the second child log after both exist. Compared with the same loggers built
+// alone. (A per-step list of segments has spare capacity only at certain depths.)
+func deepSiblings(kind int) (evals int, viols []vcommon.Violation) {
+	build := func(w *sink, d, flavour int, which int) *logger.Logger {
+		l := newRoot(kind, w)
+		for i := 0; i < d; i++ {
+			if flavour == 1 && i%2 == 1 {
+				l = l.WithGroup(fmt.Sprintf("g%d", i))
+			} else {
+				l = l.With(fmt.Sprintf("k%d", i), i)
+			}
+		}
+		mk := func(j int) *logger.Logger {
+			if flavour == 2 {
+				return l.WithGroup([]string{"first", "second"}[j]).With("in", j)
+			}
+			return l.With("k", []string{"first", "second"}[j])
+		}
+		switch which {
+		case 0: // both children exist, the first one is returned
+			c1 := mk(0)
+			mk(1)
+			return c1
+		case 1:
+			mk(0)
+			return mk(1)
+		case 2:
+			mk(0)
+			mk(1)
+			return l
+		case 3:
+			return mk(0)
+		case 4:
+			return mk(1)
+		}
+		return l
+	}
+	for d := 1; d <= 20; d++ {
+		for flavour := 0; flavour < 3; flavour++ {
+			for which := 0; which < 3; which++ {
+				evals++
+				w1, w2 := &sink{}, &sink{}
+				build(w1, d, flavour, which).Info("probe", "p", 1)
+				build(w2, d, flavour, which+3).Info("probe", "p", 1)
+				got, want := strings.Join(w1.chunks, ""), strings.Join(w2.chunks, "")
+				if got != want {
+					viols = append(viols, vcommon.Violation{Scenario: "D-" + handlerNames[kind] + "-deep-parent-two-children",
+						Fingerprint: fmt.Sprintf("deep-siblings|%s|%d|%d|%d", handlerNames[kind], d, flavour, which),
+						Message:     fmt.Sprintf("C03 (%s): a parent %d derivation steps below the root (flavour %d) gets two children; %s then writes\n   %q\nbuilt alone it writes\n   %q", handlerNames[kind], d, flavour, []string{"the first child", "the second child", "the parent"}[which], clipS(got), clipS(want)),
+						Witness:     map[string]any{"handler": handlerNames[kind], "depth": d, "flavour": flavour, "who": which}})
+					return
+				}
+			}
+		}
+	}
+	return
+}
+
 // wideWith: wide but shallow - one With carrying n attributes, for every n on a grid that walks
 // the rendered size through every buffer growth step and size limit up to about 36 KiB; then a
 // sibling is derived and everybody logs. Compared with the same loggers built alone.
@@ -644,6 +704,13 @@ func main() {
 		viols = append(viols, v...)
 	}
 	cov["wide_With_cases"] = wideEvals
+	deepEvals := 0
+	for kind := 0; kind < 3; kind++ {
+		n, v := deepSiblings(kind)
+		deepEvals += n
+		viols = append(viols, v...)
+	}
+	cov["deep_parent_two_children_cases"] = deepEvals
 	reEvals := 0
 	for kind := 0; kind < 3; kind++ {
 		n, v, hung := reentrant(kind)
